@@ -16,6 +16,7 @@ import (
 // whenever the table's formula is (a stronger iterator test is safe, a weaker one is not).
 
 var l0Result = regexp.MustCompile(`\$ret\d+`)
+var l0Predicate = regexp.MustCompile(`^!?\$[\w.()]*\.(Is|Has|Requires)[A-Za-z]*\([^()]*\)$`)
 
 type l0Entry struct {
 	Func    string            // function key
@@ -62,7 +63,7 @@ var l0Table = []l0Entry{
 		Spec:    func(v map[string]bool) bool { return v["col"] },
 		Meaning: "ColMajor bit set"},
 	{Func: "tensor.(DataOrder).IsRowMajor", Equiv: true,
-		Atoms:   map[string]string{"$r.IsColMajor()": "col"},
+		Atoms:   map[string]string{"$r.IsColMajor()": "col", "(($r & ColMajor) == 0)": "!col", "(0 == ($r & ColMajor))": "!col", "((ColMajor & $r) == 0)": "!col", "(0 == (ColMajor & $r))": "!col"},
 		Vars:    []string{"col"},
 		Spec:    func(v map[string]bool) bool { return !v["col"] },
 		Meaning: "negation of IsColMajor"},
@@ -72,12 +73,14 @@ var l0Table = []l0Entry{
 		Spec:    func(v map[string]bool) bool { return v["nc"] },
 		Meaning: "NonContiguous bit set"},
 	{Func: "tensor.(DataOrder).IsContiguous", Equiv: true,
-		Atoms:   map[string]string{"$r.IsNotContiguous()": "nc"},
+		Atoms:   map[string]string{"$r.IsNotContiguous()": "nc", "(($r & NonContiguous) == 0)": "!nc", "(0 == ($r & NonContiguous))": "!nc", "((NonContiguous & $r) == 0)": "!nc", "(0 == (NonContiguous & $r))": "!nc"},
 		Vars:    []string{"nc"},
 		Spec:    func(v map[string]bool) bool { return !v["nc"] },
 		Meaning: "negation of IsNotContiguous"},
 	{Func: "tensor.(DataOrder).HasSameOrder", Equiv: true,
-		Atoms:   map[string]string{"$r.IsColMajor()": "colA", "$other.IsColMajor()": "colB", "$r.IsRowMajor()": "!colA", "$other.IsRowMajor()": "!colB"},
+		Atoms: map[string]string{"$r.IsColMajor()": "colA", "$other.IsColMajor()": "colB", "$r.IsRowMajor()": "!colA", "$other.IsRowMajor()": "!colB",
+			"(($r & ColMajor) == 0)": "!colA", "(($other & ColMajor) == 0)": "!colB",
+			"((($other ^ $r) & ColMajor) == 0)": "so:A:B", "((($r ^ $other) & ColMajor) == 0)": "so:A:B", "((ColMajor & ($other ^ $r)) == 0)": "so:A:B", "((ColMajor & ($r ^ $other)) == 0)": "so:A:B"},
 		Vars:    []string{"colA", "colB"},
 		Spec:    func(v map[string]bool) bool { return v["colA"] == v["colB"] },
 		Meaning: "both column-major or both row-major"},
@@ -161,12 +164,12 @@ func L0(rc *RC, only func(fn string) bool) {
 			}
 			opaque := ""
 			for _, a := range extra {
-				if strings.Contains(a, "%") || l0Result.MatchString(a) {
-					opaque = a // a local or the result variable itself: not a predicate of the inputs
+				if strings.Contains(a, "%") || l0Result.MatchString(a) || !l0Predicate.MatchString(a) {
+					opaque = a // a local, the result variable, bit arithmetic: not a named predicate of the inputs
 				}
 			}
 			if opaque != "" {
-				rc.S.Undec("L0", key, pos, "the definition is written over "+opaque+", which is not a predicate of the inputs: "+f.String())
+				rc.S.Undec("L0", key, pos, "the definition is written over "+opaque+", which is not a named predicate of the inputs (only Is…/Has…/Requires… calls are taken as free variables): "+f.String())
 				continue
 			}
 			if len(extra) > 6 {
